@@ -281,6 +281,18 @@ impl Val {
         };
         (c.into_inner(), r)
     }
+    /// `encode` for generators: a panicking encoder (an `assert_eq!(size, byte_len)`) must not
+    /// kill the generator, the op that exhibits it is still emitted
+    pub fn try_encode(&self) -> Option<Vec<u8>> {
+        let prev = std::panic::take_hook();
+        std::panic::set_hook(Box::new(|_| {}));
+        let r = std::panic::catch_unwind(std::panic::AssertUnwindSafe(|| self.encode()));
+        std::panic::set_hook(prev);
+        match r {
+            Ok((bytes, Ok(_))) => Some(bytes),
+            _ => None,
+        }
+    }
     /// (value, bytes consumed)
     pub fn decode(ty: &str, bytes: &[u8], o: &DecodingOptions) -> Option<Result<(Val, usize), StatusCode>> {
         let mut c = Cursor::new(bytes);
